@@ -61,6 +61,9 @@ type StreamFault struct {
 	Kind  string `json:"kind"` // dup-vertex, dup-trx, unknown-parent, second-self-sealed, empty-trx, cut, none
 	Index int    `json:"index"`
 	fired bool
+	// closedPrefix: for "cut": what was delivered before the stream broke off is itself a well-formed
+	// smaller DAG (every declared parent delivered too, or the vertex is a root)
+	closedPrefix bool
 }
 
 func newSimNet(w *World) *SimNet { return &SimNet{w: w, cut: map[[2]int]bool{}} }
@@ -462,6 +465,19 @@ func (d *dagServerStream) Send(v *pb.Vertex) error {
 		st.net.w.fault("stream:" + f.Kind)
 		switch f.Kind {
 		case "cut":
+			have := map[string]bool{}
+			for _, pv := range st.seen[:len(st.seen)-1] {
+				have[string(pv.Hash)] = true
+			}
+			zero := string(make([]byte, 32))
+			f.closedPrefix = len(have) > 0
+			for _, pv := range st.seen[:len(st.seen)-1] {
+				for _, ph := range [][]byte{pv.LeftParentHash, pv.RightParentHash} {
+					if string(ph) != zero && !have[string(ph)] {
+						f.closedPrefix = false
+					}
+				}
+			}
 			st.push(streamItem{err: errUnavailable})
 			return errUnavailable
 		default:
